@@ -98,7 +98,10 @@ Definition ds_step_code (b : Z) (shape : list nat) (tau meps : Q) (rel graft_non
                         (combine ks (combine blocks pgs))) amp0 in
       let uAs := map (fun bx => slice_rec shape (fst bx) (snd bx) (d_uA r)) (ds_boxes b shape) in
       let uPs := map (fun bx => slice_rec shape (fst bx) (snd bx) (d_uP r)) (ds_boxes b shape) in
-      let scales := map (fun '(k, ub) => Qmax (nth k scales0 0) (maxabs_vec ub)) (combine ks (d_uB r)) in
+      (* running per-block update scale: the blocked tensor's own entries (with a grafting type the
+         separate leaves carry their own multipliers and other magnitudes) and the separate leaf's *)
+      let scales := map (fun '(k, (ua, ub)) => Qmax (nth k scales0 0) (Qmax (maxabs_vec ua) (maxabs_vec ub)))
+                        (combine ks (combine uAs (d_uB r))) in
       let tolk := fun k => (tau * (4 + amp) + 4 * amp * relB k) * nth k scales 0 in
       let rAB := map (fun '(k, (ua, ub)) =>
                         if graft_none then close_or_eq (tolk k) ua ub
@@ -183,7 +186,8 @@ Definition tf_step_code (b : Z) (shape : list nat) (tau : Q) (st : dacc) (r : ts
       let boxes := blk_starts bm shape in
       let uAs := map (fun st0 => slice_rec shape st0 (blk_sizes bm) (t_uA r)) boxes in
       let uPs := map (fun st0 => slice_rec shape st0 (blk_sizes bm) (t_uP r)) boxes in
-      let scales := map (fun '(k, ub) => Qmax (nth k scales0 0) (maxabs_vec ub)) (combine ks (t_uB r)) in
+      let scales := map (fun '(k, (ua, ub)) => Qmax (nth k scales0 0) (Qmax (maxabs_vec ua) (maxabs_vec ub)))
+                        (combine ks (combine uAs (t_uB r))) in
       let tolk := fun k => tau * (4 + amp) * nth k scales 0 in
       let rAB := map (fun '(k, (ua, ub)) => close_or_eq (tolk k) ua ub) (combine ks (combine uAs (t_uB r))) in
       if negb (forallb fst rAB) then (4%Z, st)
